@@ -125,26 +125,76 @@ def clone_inspector(i):
     return n
 
 
+class DetSet(set):
+    """A set whose iteration order is reproducible (by inspector NAME). The
+    wrapper keeps its inspectors in a plain set hashed by id; it only iterates
+    and tests membership, so this is behaviour-preserving."""
+
+    def __iter__(self):
+        return iter(sorted(set.__iter__(self), key=lambda i: (i.NAME, id(i)))
+                    if not getattr(self, '_reverse', False) else
+                    sorted(set.__iter__(self), key=lambda i: (i.NAME, id(i)),
+                           reverse=True))
+
+    def __reduce__(self):
+        return (DetSet, (list(self),))
+
+
+def _is_inspector_collection(v):
+    return (isinstance(v, (set, frozenset, list, tuple)) and len(v) > 0 and
+            all(isinstance(x, fi.FileInspector) for x in v))
+
+
 def clone_wrapper(w):
+    """Structural clone that does not depend on which private attributes the
+    wrapper happens to have: every collection of inspectors is mapped through
+    one identity map, everything else is copied by value."""
     n = object.__new__(type(w))
     mapping = {}
+
+    def m(i):
+        c = mapping.get(id(i))
+        if c is None:
+            c = mapping[id(i)] = clone_inspector(i)
+        return c
     for k, v in w.__dict__.items():
-        if k == '_inspectors':
-            lst = []
-            for i in v:
-                c = clone_inspector(i)
-                mapping[id(i)] = c
-                lst.append(c)
-            n.__dict__[k] = lst if isinstance(v, list) else set(lst)
-        elif k == '_errored_inspectors':
-            continue
+        if isinstance(v, fi.FileInspector):
+            n.__dict__[k] = m(v)
+        elif _is_inspector_collection(v):
+            if isinstance(v, DetSet):
+                nv = DetSet(m(i) for i in set.__iter__(v))
+                if getattr(v, '_reverse', False):
+                    nv._reverse = True
+            else:
+                nv = type(v)(m(i) for i in v)
+            n.__dict__[k] = nv
+        elif isinstance(v, DetSet):
+            n.__dict__[k] = DetSet()
         elif isinstance(v, _SIMPLE):
             n.__dict__[k] = v
         else:
             n.__dict__[k] = copy.deepcopy(v)
-    n.__dict__['_errored_inspectors'] = {
-        mapping[id(i)] for i in w.__dict__.get('_errored_inspectors', ())}
     return n
+
+
+def canon_wrapper(w):
+    items = []
+    for k, v in sorted(w.__dict__.items()):
+        if k == '_inspectors':
+            items.append((k, tuple(sorted((canon_inspector(i) for i in v),
+                                          key=lambda c: c[0]))))
+        elif isinstance(v, fi.FileInspector):
+            items.append((k, v.NAME))
+        elif isinstance(v, (set, frozenset, list, tuple)) and all(
+                isinstance(x, fi.FileInspector) for x in v):
+            items.append((k, tuple(sorted(x.NAME for x in v))))
+        elif isinstance(v, Src):
+            items.append((k, (v.pos, v.closed)))
+        elif isinstance(v, _SIMPLE):
+            items.append((k, v))
+        else:
+            items.append((k, repr(v)))
+    return tuple(items)
 
 
 # ---------------------------------------------------------------------------
@@ -209,10 +259,12 @@ class Src:
 def make_wrapper(data, expected=None, allowed=None, reverse=False):
     w = fi.InspectWrapper(Src(data), expected_format=expected,
                           allowed_formats=allowed)
-    # the wrapper keeps its inspectors in a set hashed by id; only iteration
-    # is ever used, so a list with a harness-chosen order is equivalent and
-    # makes runs reproducible
-    w._inspectors = sorted(w._inspectors, key=lambda i: i.NAME, reverse=reverse)
+    # the wrapper keeps its inspectors in a set hashed by id: give it a set
+    # with a harness-chosen, reproducible iteration order instead
+    ds = DetSet(w._inspectors)
+    if reverse:
+        ds._reverse = True
+    w._inspectors = ds
     return w
 
 
@@ -261,10 +313,7 @@ class WrapperSystem:
 
     clone = staticmethod(clone_wrapper)
 
-    def canon(self, w):
-        return (tuple(canon_inspector(i) for i in w._inspectors),
-                frozenset(i.NAME for i in w._errored_inspectors),
-                w._finished, w._source.pos)
+    canon = staticmethod(canon_wrapper)
 
     def verdict(self, w):
         d = wrapper_decision(w)
@@ -379,6 +428,10 @@ def explore(system, data, cuts, check_purity=True, check_regions=True,
                         res.verdicts.setdefault(v, path + ('e',))
                         continue
                     k2 = system.canon(o2)
+                    d0 = system.decision(obj)
+                    if d0 is not None and system.decision(o2) != d0:
+                        res.fail('I5-no-revision', path + ('e',),
+                                 {'before': d0, 'after': system.decision(o2)})
                     if k2 != key:
                         res.empty_changes += 1
                         if k2 not in layer:
